@@ -45,27 +45,28 @@ func directiveInsertWordBreaks(value data.Value, args []data.Value) data.Value {
 		input    = template.HTMLEscapeString(value.String())
 		maxChars = int(args[0].(data.Int))
 		chars    = 0
-		output   *bytes.Buffer // create the buffer lazily
+		inEntity = false
+		output   bytes.Buffer
 	)
-	for i, ch := range input {
+	for i := 0; i < len(input); {
+		var ch, size = utf8.DecodeRuneInString(input[i:])
 		switch {
+		case inEntity:
+			// a character reference produced by the escaping above counts as
+			// the single character it stands for and is never split.
+			inEntity = ch != ';'
 		case ch == ' ':
 			chars = 0
 		case chars >= maxChars:
-			if output == nil {
-				output = bytes.NewBufferString(input[:i])
-			}
 			output.WriteString("<wbr>")
 			chars = 1
+			inEntity = ch == '&'
 		default:
 			chars++
+			inEntity = ch == '&'
 		}
-		if output != nil {
-			output.WriteRune(ch)
-		}
-	}
-	if output == nil {
-		return value
+		output.WriteString(input[i : i+size])
+		i += size
 	}
 	return data.String(output.String())
 }
